@@ -120,6 +120,7 @@ utf8dec = z3.Function('utf8dec', BYTES, STR)     # str(b, 'utf-8') when it does 
 utf8ok = z3.Function('utf8ok', BYTES, B)         # b is valid UTF-8
 utf8enc = z3.Function('utf8enc', STR, BYTES)     # bytes(s, 'utf-8')
 str_of_int = z3.Function('str_of_int', I, STR)
+hex_of = z3.Function('hex_of', BYTES, STR)          # bytes.hex(); only |hex_of(b)| = 2|b| is stated
 # floats (uninterpreted; A-F32)
 f_unpack = z3.Function('f32_unpack', BYTES, F)   # struct.unpack('!f', b)[0]
 f_pack = z3.Function('f32_pack', F, BYTES)       # struct.pack('!f', f) when representable
